@@ -452,11 +452,24 @@ def boundary_lens(tag):
     return sorted(s)
 
 
+def split_points(L, B, thorough):
+    """single split points for an L-byte message.  thorough: all of 0..=L.  quick: all when
+    L <= B+1, else those that leave the buffer pointer within 2 of a block boundary before or
+    after the split, the first/last three, and every 16th"""
+    if thorough or L <= B + 1:
+        return list(range(L + 1))
+    near = lambda x: x % B <= 2 or x % B >= B - 2
+    return [s for s in range(L + 1) if near(s) or s <= 2 or L - s <= 2 or s % 16 == 0 or near(L - s)]
+
+
 def groups_for(tag, tier):
     """list of (group name, bounds text, [shapes])"""
     B = BLK[tag]
     maxlen = 2 * B + 9
     thorough = tier == "thorough"
+    SP = lambda L: split_points(L, B, thorough)
+    sp_txt = "every single split point 0..=len" if thorough else \
+        "single split points: all for len <= block+1, else near block boundaries / ends / every 16th"
     bl = boundary_lens(tag)
     lens = list(range(maxlen + 1)) if thorough else bl
     G = []
@@ -464,9 +477,9 @@ def groups_for(tag, tier):
         if B == 64 else [0, 1, B - 17, B - 16, B - 1, B, B + 1]
     if tag == "blake2s":
         for L in lens:
-            G.append(("blake2s.split1[len=%d]" % L, "every single split point; unkeyed (out 32) and keyed (key 32, out 32)",
-                      [sh_bu3(32, s, L - s, 0, "split1") for s in range(L + 1)] +
-                      [sh_bk3(32, 32, s, L - s, 0, "split1k") for s in range(L + 1)]))
+            G.append(("blake2s.split1[len=%d]" % L, sp_txt + "; unkeyed (out 32) and keyed (key 32, out 32)",
+                      [sh_bu3(32, s, L - s, 0, "split1") for s in SP(L)] +
+                      [sh_bk3(32, 32, s, L - s, 0, "split1k") for s in SP(L)]))
         mls = [0, 1, 63, 64, 65, 127, 128, 129] if thorough else [0, 64, 65, 128]
         for L in mls:
             G.append(("blake2s.params[len=%d]" % L, "key length 0..=32 x output length 1..=32, one update call",
@@ -494,8 +507,8 @@ def groups_for(tag, tier):
         return G
     if tag in BLK and tag.startswith("shake"):
         for L in lens:
-            G.append(("%s.split1[len=%d]" % (tag, L), "every single split point of the input; 40 output bytes in one extract",
-                      [sh_x(tag, s, L - s, 40, 0, 0, "split1") for s in range(L + 1)]))
+            G.append(("%s.split1[len=%d]" % (tag, L), sp_txt + "; 40 output bytes in one extract",
+                      [sh_x(tag, s, L - s, 40, 0, 0, "split1") for s in SP(L)]))
         O = B + 9
         for L in ([0, 1, B - 1, B] if not thorough else [0, 1, 7, 8, B - 1, B, B + 1, 2 * B]):
             G.append(("%s.extract[len=%d]" % (tag, L), "%d output bytes, split into two extract calls at every point 0..=%d" % (O, B + 8),
@@ -518,8 +531,8 @@ def groups_for(tag, tier):
         return G
     # fixed-output SHA-2 / SHA-3.  The third update of upd3 carries the tail for two split points.
     for L in lens:
-        G.append(("%s.split1[len=%d]" % (tag, L), "every single split point 0..=len",
-                  [sh_upd3(tag, s, L - s, 0, "split1") for s in range(L + 1)]))
+        G.append(("%s.split1[len=%d]" % (tag, L), sp_txt,
+                  [sh_upd3(tag, s, L - s, 0, "split1") for s in SP(L)]))
     G.append(("%s.reuse" % tag, "update, finalize_reset, update, update, finalize",
               [sh_reuse(tag, a, b, c) for a in few for b in few for c in (0, 7)]))
     G.append(("%s.reset" % tag, "update, reset, update, digest",
@@ -780,12 +793,18 @@ def _same(x, y):
     return x is y or (not isinstance(x, T.Term) and not isinstance(y, T.Term) and x == y)
 
 
-def sweep(impl_outs, spec_outs, trace, envs, widths, timeout, nthreads, max_iter=4):
-    """Prove impl_outs == spec_outs.  Cut points: the spec's trace values matched by value (or
-    complemented value) to IR terms on the simulation inputs.  All matches are first ASSUMED
-    (each matched pair replaced on both sides by one fresh variable) and every match is then
-    proved as a lemma under the cuts below it; a lemma that is not proved is dropped and the
-    affected queries are posed again.  Returns dict(status=proved|differs|sat|unknown, ...)."""
+def sweep(impl_outs, spec_outs, trace, envs, widths, timeout, nthreads, max_iter=5):
+    """Prove impl_outs == spec_outs by word-level sweeping.
+
+    Candidate equivalences: every IR term whose value on the simulation inputs equals the value
+    (or the complement) of a spec trace point.  Trace points labelled "h:" (the state carried
+    from one round to the next) are HARD cuts: the spec term and its IR partners are replaced by
+    one shared fresh variable.  The other trace points are SOFT: the IR partner is replaced by
+    the spec term itself (merging), which only makes the two DAGs share structure.  All
+    candidates are first assumed and each is then proved as a lemma under the replacements
+    strictly below its IR term; a lemma that is not proved is dropped and the affected queries
+    are posed again, so the final set of lemmas is closed.  Every lemma is one QF_BV query.
+    Returns dict(status=proved|differs|sat|unknown, ...)."""
     t0 = time.time()
     n = len(envs)
     st_terms = [t for _, t in trace if isinstance(t, T.Term)]
@@ -796,45 +815,52 @@ def sweep(impl_outs, spec_outs, trace, envs, widths, timeout, nthreads, max_iter
         for x, y in zip(impl_outs, spec_outs):
             if val(im[k], x) != val(sm[k], y):
                 return dict(status="differs", env=envs[k], seconds=time.time() - t0)
-    # equivalence classes of IR terms by simulation signature: EVERY IR term that carries the
-    # value (or the complement) of a spec trace point becomes a cut, so that a value the code
-    # computes twice (Keccak column parities) is abstracted consistently
+    spec_roots = [x for x in list(spec_outs) + st_terms if isinstance(x, T.Term)]
+    spec_ids = set(t.id for t in T.topo(spec_roots))
     sig2impl = {}
     for t in T.topo(impl_outs):
-        if t.op != "var":
+        if t.op != "var" and t.id not in spec_ids:
             sig2impl.setdefault((t.w, tuple(im[k][t.id] for k in range(n))), []).append(t)
     matches = []
     used_impl, used_spec = set(), set()
-    nomatch = 0
+    nomatch = shared = 0
     for lab, st in trace:
         if not isinstance(st, T.Term) or st.op == "var" or st.id in used_spec:
             continue
+        hard = lab.startswith("h:")
+        lab = lab[2:] if hard else lab
         w = st.w
         sig = tuple(sm[k][st.id] for k in range(n))
         cands = [(it, False) for it in sig2impl.get((w, sig), [])] + \
                 [(it, True) for it in sig2impl.get((w, tuple(v ^ T.mask(w) for v in sig)), [])]
-        cands = [(it, neg) for it, neg in cands if it.id not in used_impl and it.id not in used_spec][:6]
-        if not cands:
-            nomatch += 1
-            continue
+        cands = [(it, neg) for it, neg in cands if it.id not in used_impl][:6]
         used_spec.add(st.id)
+        if not cands:
+            if st.id in im[0]:
+                shared += 1       # the very same term occurs in the IR DAG
+            else:
+                nomatch += 1
+            if hard:
+                matches.append((lab, st, None, False, True))
+            continue
         for j, (it, neg) in enumerate(cands):
             used_impl.add(it.id)
-            matches.append(("%s#%d" % (lab, j), st, it, neg))
+            matches.append(("%s#%d" % (lab, j), st, it, neg, hard))
     cache = {}
-    stats = dict(lemmas=len(matches), nomatch=nomatch, queries=0, solver_s=0.0, maxlemma=0.0, dropped=[],
-                 syntactic=0)
-    roots = list(spec_outs) + list(impl_outs) + [m[1] for m in matches] + [m[2] for m in matches]
-    order = T.topo(roots)
+    stats = dict(lemmas=sum(1 for m in matches if m[2] is not None), nomatch=nomatch, shared=shared, queries=0,
+                 solver_s=0.0, maxlemma=0.0, dropped=[], syntactic=0)
+    order = T.topo(spec_roots + [x for x in impl_outs if isinstance(x, T.Term)])
     live = list(matches)
+    neg_of = lambda x, w: (x ^ T.mask(w)) if not isinstance(x, T.Term) else T._mk("xor", (x, T.mask(w)), w)
     for iteration in range(max_iter):
-        cutvar = {}
-        for j, (lab, st, it, neg) in enumerate(live):
-            c = cutvar.get(st.id)
-            if c is None:
-                c = cutvar[st.id] = T.var("cut_%s" % lab.split("#")[0], st.w)
-            if it.id != st.id:
-                cutvar[it.id] = T._mk("xor", (c, T.mask(st.w)), st.w) if neg else c
+        cutvar, implmap = {}, {}
+        for lab, st, it, neg, hard in live:
+            # a hard point without a (live) IR partner is cut on the spec side only when the same
+            # node is part of the IR DAG (then the cut applies to both sides at once)
+            if hard and (it is not None or st.id in im[0]) and st.id not in cutvar:
+                cutvar[st.id] = T.var("cut_%s" % lab.split("#")[0], st.w)
+            if it is not None:
+                implmap[it.id] = (st, neg)
         body, final = {}, {}
         g = lambda x: final[x.id] if isinstance(x, T.Term) else x
         for t in order:
@@ -844,12 +870,20 @@ def sweep(impl_outs, spec_outs, trace, envs, widths, timeout, nthreads, max_iter
                 na = tuple(g(a) for a in t.args)
                 b = t if all(x is y for x, y in zip(na, t.args)) else T._rebuild(t, na)
             body[t.id] = b
-            final[t.id] = cutvar.get(t.id, b)
+            if t.id in cutvar:
+                final[t.id] = cutvar[t.id]
+            elif t.id in implmap:
+                st, neg = implmap[t.id]
+                final[t.id] = neg_of(final[st.id], t.w) if neg else final[st.id]
+            else:
+                final[t.id] = b
         jobs = []
-        for lab, st, it, neg in live:
+        for lab, st, it, neg, hard in live:
+            if it is None:
+                continue
             x, y = body[st.id], body[it.id]
             if neg:
-                y = T.t_not(y, st.w) if not isinstance(y, T.Term) else T._mk("xor", (y, T.mask(st.w)), st.w)
+                y = neg_of(y, st.w)
             if _same(x, y):
                 jobs.append((lab, None))
                 continue
@@ -869,7 +903,7 @@ def sweep(impl_outs, spec_outs, trace, envs, widths, timeout, nthreads, max_iter
             if script is None:
                 return lab, "unsat", 0.0, ""
             if script in cache:
-                return (lab,) + cache[script]
+                return (lab,) + cache[script][:1] + (0.0,) + cache[script][2:]
             v, mod, dt = run_solver(script, "z3", timeout)
             cache[script] = (v, dt, mod if lab == "final" else "")
             return lab, v, dt, mod
@@ -877,10 +911,10 @@ def sweep(impl_outs, spec_outs, trace, envs, widths, timeout, nthreads, max_iter
             results = list(pool.map(solve, jobs))
         failed = set()
         fin = None
+        nsyn = 0
         for (lab, script), (_, v, dt, mod) in zip(jobs, results):
             if script is None:
-                if iteration == 0 and lab != "final":
-                    stats["syntactic"] += 1
+                nsyn += lab != "final"
             elif dt:
                 stats["queries"] += 1
                 stats["solver_s"] += dt
@@ -891,7 +925,8 @@ def sweep(impl_outs, spec_outs, trace, envs, widths, timeout, nthreads, max_iter
                 failed.add(lab)
         if not failed:
             stats.update(status={"unsat": "proved", "sat": "sat"}.get(fin[0], "unknown"), final=fin[0],
-                         cuts=len(live), iterations=iteration + 1, seconds=time.time() - t0)
+                         cuts=len(cutvar), merged=len(implmap), syntactic=nsyn, iterations=iteration + 1,
+                         seconds=time.time() - t0)
             return stats
         stats["dropped"] += sorted(failed)
         live = [m for m in live if m[0] not in failed]
@@ -1265,7 +1300,7 @@ def run(tier, only=None):
         functions_encoded=funcs + ["drivers: new/update/digest/finalize*/reset/clone/hash of " + ", ".join(tags)],
         bounds={
             "message": "all byte values; lengths 0..=2*block+9 (%s)" % ("every length" if thorough else "boundary lengths: " + "; ".join("%s %s" % (t, boundary_lens(t)) for t in tags)),
-            "splits": "every single split point for each listed length" + ("; every pair of split points for lengths <= block+9 on sha256, sha3_512, blake2s and for four boundary lengths on sha512, sha3_256, shake128/256" if thorough else ""),
+            "splits": ("every single split point for each listed length" if thorough else "single split points: all for len <= block+1, otherwise those near block boundaries/ends and every 16th") + ("; every pair of split points for lengths <= block+9 on sha256, sha3_512, blake2s and for four boundary lengths on sha512, sha3_256, shake128/256" if thorough else ""),
             "sequences": "finalize_reset/reset/clone sequences over boundary length tuples (see group bounds)",
             "shake": "output split at every point 0..=rate+8 of rate+9 bytes; three-way splits around the rate; up to 2*rate+9 output bytes",
             "blake2s": "key length 0..=32 x output length 1..=32 on message lengths %s; keyed reuse/reset for key lengths %s" % (
